@@ -294,7 +294,7 @@ Print Assumptions C06_to_integral.
 (* literals: every spelling of the grammar (lit_ok l) is read with the value it denotes *)
 
 Theorem C06_literal_decimal_and_based : forall d p,
-  (lit_ok (GDec d) = true ->
+  (lit_ok (GDec d) = true -> (Z.of_N (digits (chars_value 10 (ds_chars d))) <= 100001)%Z ->
      lit_parse (render (GDec d)) = LNum (mkNum KInt (mkDec false (chars_value 10 (ds_chars d)) 0))) /\
   (lit_ok (GBased p d) = true ->
      lit_parse (render (GBased p d)) =
@@ -303,7 +303,7 @@ Proof. exact (fun d p => conj (lit_dec_value d) (lit_based_value p d)). Qed.
 Print Assumptions C06_literal_decimal_and_based.
 
 (* float_lit = digits * 10^(exponent - #fraction digits), kind float, while the exponent stays
-   inside apd's range (outside: finding F9) *)
+   inside apd's range *)
 Theorem C06_literal_float_value : forall ip fp e,
   lit_ok (GFloat ip fp e) = true ->
   exp_in_range (chars_value 10 (opt_chars ip ++ fp_chars fp)) (expo_value e) (length (fp_chars fp)) ->
@@ -311,6 +311,15 @@ Theorem C06_literal_float_value : forall ip fp e,
     LNum (mkNum KFloat (mantissa ip (fp_flat fp) (expo_value e))).
 Proof. exact lit_float_value. Qed.
 Print Assumptions C06_literal_float_value.
+
+(* ... and outside that range the literal is an error, never another value (finding F9, fixed:
+   NumInfo.decimal returns the error of apd's UnmarshalText) *)
+Theorem C06_literal_float_out_of_range_rejected : forall ip fp e,
+  lit_ok (GFloat ip fp e) = true ->
+  ~ exp_in_range (chars_value 10 (opt_chars ip ++ fp_chars fp)) (expo_value e) (length (fp_chars fp)) ->
+  lit_parse (render (GFloat ip fp e)) = LErr.
+Proof. exact lit_float_out_of_range_rejected. Qed.
+Print Assumptions C06_literal_float_out_of_range_rejected.
 
 (* si_lit: the product at precision 34, then RoundToIntegralExact (implementation-faithful) *)
 Theorem C06_literal_si_value : forall ip fp m,
@@ -369,14 +378,15 @@ Theorem C06_mult_literal_truncation_refuted :
 Proof. exact mult_literal_truncation_refuted. Qed.
 Print Assumptions C06_mult_literal_truncation_refuted.
 
-(* 1e100001 denotes 1; 1e2147483648 leaves a NaN decimal without an error *)
-Theorem C06_literal_exponent_range_refuted :
-  lit_parse f9_witness = LNum (mkNum KFloat (mkDec false 1 0)) /\
-  (exists i, parse_num f9_witness = Some i /\
-             lit_exact i = Some (mkNum KFloat (mkDec false 1 100001))) /\
-  lit_parse f9_witness_nan = LNaN KFloat.
-Proof. exact literal_exponent_range_refuted. Qed.
-Print Assumptions C06_literal_exponent_range_refuted.
+(* 1e100001, 1e-400000, 1e2147483648 are rejected (they used to denote 1, 1 and NaN: finding F9,
+   fixed); 1e100000 is the largest accepted exponent; no literal leaves a NaN decimal behind *)
+Theorem C06_literal_exponent_range_rejected :
+  (lit_parse f9_witness = LErr /\ lit_parse f9_witness_neg = LErr /\ lit_parse f9_witness_nan = LErr /\
+   lit_parse [49; 101; 49; 48; 48; 48; 48; 48]%N = LNum (mkNum KFloat (mkDec false 1 100000)) /\
+   classify f9_witness = LcSame /\ classify f9_witness_nan = LcSame) /\
+  (forall src k, lit_parse src <> LNaN k).
+Proof. exact (conj literal_exponent_range_rejected lit_parse_never_nan). Qed.
+Print Assumptions C06_literal_exponent_range_rejected.
 
 (* ------------------------------------------------------------------ *)
 (* non-vacuity: concrete evaluations of the models (all by computation) *)
